@@ -16,20 +16,21 @@ type LocalLock struct {
 	lockName string
 }
 
-// GetLocalLock returns a LocalLock with the specified name
+// GetLocalLock returns a LocalLock with the specified name.
+// The locks of one name share a mutex, but each of them works with the context of its own caller:
+// the context of the request that happened to create the lock is cancelled as soon as that request returns.
 func GetLocalLock(ctx iface.OrdaContext, lockName string) *LocalLock {
-
-	value, loaded := localLockMap.LoadOrStore(lockName, &LocalLock{
-		ctx:      ctx,
-		mutex:    golock.NewCASMutex(),
-		lockName: lockName,
-	})
+	value, loaded := localLockMap.LoadOrStore(lockName, golock.NewCASMutex())
 	if loaded {
 		ctx.L().Infof("[🔒] load lock '%v'", lockName)
 	} else {
 		ctx.L().Infof("[🔒] create lock '%v'", lockName)
 	}
-	return value.(*LocalLock)
+	return &LocalLock{
+		ctx:      ctx,
+		mutex:    value.(*golock.CASMutex),
+		lockName: lockName,
+	}
 }
 
 // TryLock tries to a local lock, and returns true if it succeeds; otherwise false
